@@ -16,14 +16,20 @@ from translate import c16_fgd
 MANIFEST = dict(
     technique='Rocq proof (long-string writer/reader for all strings; token-level writers/parsers of the entity header (bases / aliasof, '
               'helpers, class name, description), of keyvalue, spawnflag, choices, I/O lines and @resources blocks for every split of long '
-              'strings, joined to the character level and composed into a whole entity definition; codec tables, bit packings, whole '
-              'binary records, blocks, file header and block positions; lazy database = eager database for all query orders including '
-              'what stored base names are replaced by; a LIST of databases: first-hit look-up = first-wins merge for all histories) + '
+              'strings, joined to the character level and composed into a whole entity definition; the type text between the parentheses '
+              'as programs read off KVDef._parse / IODef._parse and PROVED equal to the hand model on all inputs; the entity keyword and the '
+              'top-level dispatch of FGD.parse_file; codec tables, bit packings, whole binary records, blocks, file header and block '
+              'positions; the block builder of serialise(): every entity in exactly one block; lazy database = eager database for all '
+              'query orders including what stored base names are replaced by; a LIST of databases: first-hit look-up = first-wins merge '
+              'for all histories; one composed statement c16_property over the generated objects) + '
               'fail-closed ast translator that normalises before matching (constants, escape table, decisive writer branches read off '
               'all paths, I/O skeletons of the (un)serialisers, shape of get_ent/_parse_block/get_fgd, shape of the engine_def loop and '
-              'of the engine_dbase merge) + vm_compute correspondence (byte-exact for binary records and blocks of the shipped file; '
-              'token-exact for text lines and entity headers; histories over several hand-built databases) + export/parse/export, '
-              'binary and lazy-loading oracles on the bundled database, generated FGDs, hand-built databases and added databases',
+              'of the engine_dbase merge, symbolic execution of the type-text part of the line parsers, VALUE_TYPE_LOOKUP, the dispatch '
+              'chain of parse_file, shape of build_blocks and of the two loops of serialise) + vm_compute correspondence (byte-exact for '
+              'binary records and blocks of the shipped file; token-exact for text lines and entity headers; type texts, kind keywords, '
+              'block grouping; histories over several hand-built databases) + export/parse/export, binary and lazy-loading oracles on '
+              'the bundled database, generated FGDs (custom value types included), hand-written FGD texts, hand-built databases and '
+              'added databases',
     text='Theorems in Props/C16.v. Text: for every text, indent and line tail the reader (_handle_string and the "+" continuation of '
          '_read_colon_list) returns exactly what _write_longstring wrote, the writer never writes nothing, keeps every section within LIMIT '
          'and never cuts between a backslash and its symbol (extended syntax: all texts; plain syntax: texts without ", \\ and CR); at the '
@@ -34,31 +40,45 @@ MANIFEST = dict(
          'exactly the two texts; the entity header (base()/aliasof() with any number of bases, any list of helpers with or without '
          'arguments, class name, description) is read back as the same bases, alias flag, helper objects, name and description, and '
          'header + body compose into the round trip of a whole entity definition; the single-colon and only-non-empty-resources writer '
-         'variants are refuted. Binary: VALUE_TYPE_ORDER/'
+         'variants are refuted. Type text: every program read off KVDef._parse / IODef._parse that passes the named obligations equals '
+         'the hand model on all token texts (strip, a leading * = report, case-insensitive look-up in VALUE_TYPE_LOOKUP, unknown names kept '
+         'as written); export then parse is the identity on custom type names, parse then export is idempotent on known ones; casefold '
+         'before the fall-back is refuted. Kind keyword: every member of EntityTypes is written as a keyword that the dispatch chain of '
+         'FGD.parse_file reads back as that member (never as a directive); comparing without casefold is refuted. Binary: VALUE_TYPE_ORDER/'
          'FILE_TYPE_ORDER indexes, "index|128" bytes, EntFlags, spawnflag powers, BinStrDict indexes, 16-bit indexes, separator-joined '
          'lists; composed into ent_unserialise(ent_serialise(e) ++ rest) = (e, rest) for whole definitions and whole blocks with the '
-         'block dictionary, the file header and the block positions. Lazy: for every query sequence on a fresh database the answers '
+         'block dictionary, the file header and the block positions; build_blocks: for every configuration that keeps the first overflow '
+         'block in the list until it is filled - whatever the size tests, sizes, pair order and set iteration order - every entity is in '
+         'exactly one block and no empty block is written; dropping the empty overflow block early is refuted. Lazy: for every query '
+         'sequence on a fresh database the answers '
          '(definition AND what every stored base name was replaced by, alias chains across blocks included) equal those of the fully '
          'loaded database; base look-ups terminate; the ent_map-look-up variant is refuted. Several databases (add_engine_database): '
          'for every list of files and every history of EntityDef.engine_def() look-ups the answers equal FGD.engine_dbase() when the '
          'merge keeps the first definition of a class, both are the content of the first file that defines it, and the overwriting '
-         'merge (dict.update) is refuted on every class whose first and last definitions differ. The objects the theorems quantify over are '
+         'merge (dict.update) is refuted on every class whose first and last definitions differ. c16_property states text, type text, '
+         'kind keyword, block grouping and lazy loading at the generated objects under the conjunction of the named booleans, which is '
+         'itself an instance obligation of every run. The objects the theorems quantify over are '
          'regenerated from the source on every run and kernel-checked as named instance obligations; all hand models are compared with the '
          'implementation on generated and shipped data; the whole bundled database and generated FGDs are exported, parsed and exported '
          'again, serialised to the binary format and back (also as small databases that exercise the overflow blocks), queried lazily in '
          'random orders, and queried with an added database in front of the bundled one.',
-    note='Still search only: snippets, @MaterialExclusion/@AutoVisgroup and autovis() helpers, the `@PointClass` keyword line of FGD.parse_file, '
+    note='Still search only: @include, @mapsize, @MaterialExclusion, @AutoVisgroup and @snippet bodies, autovis() helpers, '
          'FGD.sorted_ents, and the character-level lexing of everything except quoted strings (bare words, punctuation, comments): '
          'the line and header models work on the token stream of the real Tokenizer and are tied to the exporters/parsers by token-exact '
-         'correspondence (also on mutated token lists), not by a translator-generated core. Helper objects, value types, tags and numbers '
-         'are abstract in the theorems; their premises are checked on the real tables / generated helpers (data obligations). Block decoding '
-         'in the lazy model is a parameter (a function of the block bytes), lzma is outside the model, compute_ent_strings/build_blocks (how '
-         'entities are grouped into blocks) are not modelled (searched with small generated databases), deepcopy in engine_def/engine_dbase '
+         'correspondence (also on mutated token lists), not by a translator-generated core (the type text, the kind keyword and the block '
+         'builder configuration ARE generated). Helper objects, tags and numbers '
+         'are abstract in the theorems; their premises are checked on the real tables / generated helpers (data obligations). str.casefold is '
+         'modelled as ASCII lower-casing (the three laws the type-text proof needs are proved for it). Block decoding '
+         'in the lazy model is a parameter (a function of the block bytes), lzma is outside the model, compute_ent_strings (which strings a '
+         'block needs) and the final stable sort of the blocks by length are not modelled, deepcopy in engine_def/engine_dbase '
          'and FGD.apply_bases after the merge are outside the model. The translator assumes that attribute loads are plain field reads and '
          'that the str methods it inlines have no effects. Accepted normalisations of the text form: I/O types decay (VALUE_TO_IO_DECAY), empty BOOL '
          'default = "0", yes/no = 1/0, kv_order is compared as effective order, newlines in choice/flag names become spaces, '
-         'custom_syntax=False drops tags/resources/extension helpers/aliasof and cannot represent ", \\ or CR in texts. Quick tier runs the '
-         'bundled database under 2 of the 4 option sets (all 4 in the thorough tier and whenever a tie is broken). Trusted: Coq kernel + '
+         'custom_syntax=False drops tags/resources/extension helpers/aliasof and cannot represent ", \\ or CR in texts; a custom type name '
+         'must be stripped, must not start with * and must not be a spelling of a known type. Quick tier runs the '
+         'bundled database under 2 of the 4 option sets (all 4 in the thorough tier and whenever a tie is broken). Stages run in forked '
+         'worker processes with wall limits: a search stage that does not return or raises unexpectedly is reported as a violation whose '
+         'replay re-runs the stage; a tie stage that times out is an internal error. Trusted: Coq kernel + '
          'vm_compute, translate/c16_fgd.py, hand models Fmt/LongString.v, Fmt/FgdBin.v, Fmt/FgdBinEnt.v, Fmt/FgdLine.v, Fmt/FgdBody.v, '
          'Fmt/FgdHead.v, SM/LazyDb.v, SM/LazyDbMulti.v (tied by correspondence), the real Tokenizer as lexer of the line correspondences, CPython.',
 )
@@ -2024,6 +2044,46 @@ def search_type_text(ck: Ck) -> None:
             ck.violation(key, what, {'kind': 'type_text', 'lines': [list(x) for x in small], 'text': type_text_fgd(small)})
 
 
+def corr_kind_keyword(ck: Ck) -> None:
+    """Fmt/FgdKindKw.v with the objects read from the source against the implementation: the first token of what EntityDef.export writes
+    for every kind == kind_written; FGD.parse_file on `<keyword> = name [ ]` with the keyword of every kind in random case, unknown
+    '@' keywords and bare words == kw_dispatch (the kind it creates / a parse error)."""
+    from srctools.fgd import EntityDef, EntityTypes
+    from srctools.tokenizer import TokenSyntaxError
+    rng = ck.rng
+    w_rows, d_rows = [], []
+    for kind in EntityTypes:
+        buf = io.StringIO()
+        EntityDef(kind, 'c16_kind').export(buf)
+        first = fgd_tokens(buf.getvalue())[0][1]
+        w_rows.append('(%s, %s)' % (coq_chars(kind.value), coq_chars(first)))
+    words = ['@' + k.value for k in EntityTypes] * 3 + ['@fooclass', 'pointclass', '@', '@point class'.replace(' ', '_'), '@classpoint', '@BaseClas', 'x']
+    for w in words:
+        kw = random_case(rng, w)
+        ck.count('corr_kind_keyword')
+        ck.hist('kind_keyword', 'kind' if w[1:] in {k.value for k in EntityTypes} and w.startswith('@') else 'other')
+        try:
+            f = parse_text(f'{kw} = c16_kind : "d"\n\t[\n\t]\n')
+            got = 'KKind ' + coq_chars(f.entities['c16_kind'].type.value)
+        except TokenSyntaxError:
+            got = 'KError'
+        d_rows.append('(%s, %s)' % (coq_chars(kw), got))
+    exprs = ['bad_idx (fun c : list N * list N => str_eqb (kind_written kind_writer_ops (fst c)) (snd c)) 0 ' + coq_list(w_rows),
+             'bad_idx (fun c : list N * kw => kw_eqb (kw_dispatch pf_token_folded pf_directives entity_kind_values (fst c)) (snd c)) 0 ' + coq_list(d_rows)]
+    vals = ck.coq_eval(IMPORTS + ['SV.Fmt.FgdKindKw'], exprs, name='kindkw', preamble=PRE, timeout=600)
+    if vals is None:
+        ck.obligation('correspondence:text_kind_keyword', False, 'model could not be evaluated')
+        ck.tie_broken.append('correspondence kind keyword: model evaluation failed')
+        return
+    bad = [parse_coq_N_list(v) for v in vals]
+    ck.obligation('correspondence:text_kind_keyword', not bad[0] and not bad[1],
+                  f'{len(w_rows)} kinds as written by EntityDef.export and {len(d_rows)} top-level keywords through FGD.parse_file == Fmt/FgdKindKw.v with '
+                  f'the directive list, token normalisation and writer operations read from the source: {len(bad[0])} + {len(bad[1])} disagreements')
+    if bad[0] or bad[1]:
+        ck.tie_broken.append('correspondence kind keyword (Fmt/FgdKindKw.v vs fgd.py)')
+        ck.extra['kind_keyword_disagreement'] = {'writer': [w_rows[i] for i in bad[0][:2]], 'dispatch': [d_rows[i] for i in bad[1][:2]]}
+
+
 # =============================================================================================== blocks of the binary database
 def impl_build_blocks(sizes: list[int], pairs: list[tuple[int, int]]) -> list[list[int]]:
     """The real _engine_db.build_blocks on entities 0..n-1 (it only uses them as dictionary keys): the blocks in the order returned."""
@@ -2220,7 +2280,7 @@ def roundtrip_fgd(fgd: Any, opts: dict) -> dict:
     unknown = has_custom_types(fgd)     # custom value types need the parser option that keeps them
     try:
         f2 = parse_text(t1, unknown)
-    except (TokenSyntaxError, ValueError, KeyError) as e:
+    except Exception as e:   # noqa: BLE001   (TokenSyntaxError is the documented one; anything else is reported the same way)
         return {'stage': 'parse', 'error': f'{type(e).__name__}: {str(e)[:240]}', 'text': t1}
     custom = opts['custom_syntax']
     changed = {}
@@ -3015,6 +3075,9 @@ INSTANCE_OBLIGATIONS = {
     'binary_blocks_empty_blocks_dropped_at_the_end': 'blocks_empty_dropped_at_end',
     'binary_blocks_serialise_writes_every_entity_of_every_block': 'blocks_all_written',
     'binary_blocks_early_drop_is_refuted': 'early_drop_breaks',
+    'property_hypotheses_hold_for_todays_source': 'c16_property_hypotheses',
+    'text_kind_keywords_read_back_as_their_kind': 'kind_keywords_read_back',
+    'text_kind_dispatch_without_casefold_is_refuted': 'unfolded_dispatch_breaks',
     'text_kv_type_program_is_the_model': 'kv_type_prog_ok',
     'text_io_type_program_is_the_model': 'io_type_prog_ok',
     'text_kv_unknown_type_kept_verbatim': 'kv_unknown_type_kept_verbatim',
@@ -3192,12 +3255,20 @@ def start_workers(ck: Ck, groups: list[list[tuple[str, Callable[..., Any], tuple
                     try:
                         timed(name, fn, box, *args)
                     except Exception as e:   # noqa: BLE001
+                        in_impl = any('/srctools/' in fr.filename for fr in traceback.extract_tb(e.__traceback__))
+                        if not searches and not in_impl:
+                            raise                  # the check itself failed: INTERNAL-ERROR
                         if not searches:
-                            raise
-                        box.violation(f'search-stage-raises:{name}:{type(e).__name__}',
-                                      f'{name} stopped with an exception none of its oracles expects from the implementation: '
-                                      f'{type(e).__name__}: {str(e)[:200]} | {traceback.format_exc()[-700:]}',
-                                      {'kind': 'stage', 'stage': name, 'seed': ck.seed, 'tier': 'thorough' if box.budget(0, 1) else 'quick'})
+                            # the implementation raised something no tie stage expects: the tie is broken (the searches
+                            # look for the input; a concrete violation of this run explains it)
+                            box.obligation(f'stage:{name}', False, f'the implementation raised {type(e).__name__}: {str(e)[:200]} | '
+                                           + traceback.format_exc()[-600:])
+                            box.tie_broken.append(f'tie stage {name}: the implementation raised {type(e).__name__}')
+                        else:
+                            box.violation(f'search-stage-raises:{name}:{type(e).__name__}',
+                                          f'{name} stopped with an exception none of its oracles expects from the implementation: '
+                                          f'{type(e).__name__}: {str(e)[:200]} | {traceback.format_exc()[-700:]}',
+                                          {'kind': 'stage', 'stage': name, 'seed': ck.seed, 'tier': 'thorough' if box.budget(0, 1) else 'quick'})
                     try:
                         payload = pickle.dumps(box.payload())
                     except Exception as e:   # noqa: BLE001
@@ -3217,8 +3288,10 @@ def start_workers(ck: Ck, groups: list[list[tuple[str, Callable[..., Any], tuple
         wr.close()
         workers.append((pid, rd, [n for n, _, _ in group]))
 
-    def join() -> bool:
-        limit = (STAGE_LIMIT_SEARCH_THOROUGH if (ck.thorough or escalate or ck.tie_broken) else STAGE_LIMIT_SEARCH_QUICK) if searches else STAGE_LIMIT_TIE
+    def join(soft: bool = False) -> bool:
+        """soft: a search stage of this run did not terminate (reported as a violation): a tie stage that calls the same code
+        will not either, so the tie stages get STAGE_LIMIT_SEARCH_QUICK more and a late one is a failed `stage:` obligation."""
+        limit = (STAGE_LIMIT_SEARCH_THOROUGH if (ck.thorough or escalate or ck.tie_broken) else STAGE_LIMIT_SEARCH_QUICK) if searches else (STAGE_LIMIT_SEARCH_QUICK if soft else STAGE_LIMIT_TIE)
         from multiprocessing.connection import wait as mp_wait
         results: dict[str, dict] = {}
         problems: list[str] = []
@@ -3266,6 +3339,10 @@ def start_workers(ck: Ck, groups: list[list[tuple[str, Callable[..., Any], tuple
                                                  f'{cur} did not finish within {limit} s (its normal time is a small fraction of that): a call into the '
                                                  'implementation does not return', {'kind': 'stage', 'stage': cur, 'seed': ck.seed,
                                                                                     'tier': 'thorough' if limit == STAGE_LIMIT_SEARCH_THOROUGH else 'quick'}, False)]}
+                    elif soft and cur is not None:
+                        results[cur] = {'obligations': [{'name': f'stage:{cur}', 'ok': False, 'detail': f'did not finish within {limit} s after a search stage '
+                                                         'was found not to terminate (same implementation code)'}],
+                                        'tie_broken': [f'tie stage {cur} did not finish (a call into the implementation does not return)']}
                     else:
                         problems.append(f'timeout: stage {cur} of {st["names"]} did not finish within {limit} s')
                     close(rd, True)
@@ -3308,9 +3385,17 @@ def run(ck: Ck) -> None:
                'special / long, as written and with 1-2 token mutations, non-trivial = more than 6 tokens; several databases: 2-3 '
                'hand-built databases over 8 class names that overlap, alias bases inside and across blocks, histories of engine_def '
                'queries then engine_dbase(), and generated override databases put in front of the bundled one (add_engine_database), '
-               'non-trivial = a class defined in two databases is queried')
+               'non-trivial = a class defined in two databases is queried; type texts: known type names in random case with blanks and a '
+               'leading *, custom names with mixed case / digits / underscores, edge cases (empty, *, ehandle spellings), through both '
+               'line parsers with and without ignore_unknown_valuetype, and hand-written FGD texts with 1-6 such lines, non-trivial = has an '
+               'upper-case letter; custom value types on 12-15 % of the generated keyvalues / inputs / outputs; kind keywords of every '
+               'EntityTypes member in random case; block builder: 1-14 entities with sizes on the scale of MAX_BLOCK_SIZE, random '
+               'overlapping pairs over a subset of them, non-trivial = more than one block and at least one pair')
     ck.trusted.append('hand-written models Fmt/LongString.v, Fmt/FgdBin.v, Fmt/FgdBinEnt.v, Fmt/FgdLine.v, Fmt/FgdBody.v, Fmt/FgdHead.v, SM/LazyDb.v, SM/LazyDbMulti.v (tied by differential '
                       'correspondence on every run; decisive branches and layouts read from the source by the translator)')
+    ck.trusted.append('hand-written models Fmt/FgdKindKw.v (top-level dispatch, str.title/replace on ASCII) and SM/FgdBlocks.v (block builder), tied by '
+                      'correspondence with the configuration read from the source; Fmt/FgdTypeText.v: the programs are generated and proved equal '
+                      'to the hand model, str.casefold = ASCII lower-casing')
     ck.trusted.append('srctools.tokenizer.Tokenizer as the lexer of the text-line correspondences (only quoted strings are modelled at character level)')
     ck.trusted.append('snippets, autovis() helpers, the @Kind keyword and the order of lines inside an entity are outside every model: covered by search only; '
                       'helper objects are abstract in the header model (HELPER_IMPL[..].parse tabulated per run)')
@@ -3328,6 +3413,10 @@ def run(ck: Ck) -> None:
         'translator normalisation: attribute loads are plain field reads, callees do not re-assign fields of their arguments, the str methods '
         'casefold/lower/upper/strip/... have no effects (single-assignment locals bound to such expressions are inlined before matching)',
         'several databases: every database is an independent LazyDb; deepcopy of the answers and FGD.apply_bases() after the merge are outside the model',
+        'custom value type names are stripped, do not start with *, and are not a spelling of a known type (nor `ehandle` on I/O lines): '
+        'what export -> parse can keep; `(* Foo)` and `(**Foo)` are outside (the stored name would start with a blank / a star)',
+        'block builder: the iteration order of the set of unplaced entities is a parameter (any order); the final sort by length and '
+        'compute_ent_strings are outside the model',
         'accepted normalisations: I/O type decay, empty BOOL default = "0", effective keyvalue order, newline -> space in choice/flag names',
     ]
     ok_t = timed('translate', ck.translate, 'FgdConsts_gen', c16_fgd.translate)
@@ -3338,7 +3427,7 @@ def run(ck: Ck) -> None:
     first_escalated = bool(ck.thorough or ck.tie_broken)
     join_searches = start_workers(ck, search_groups(data, tb), searches=True)
     built = ok_t and timed('build', ck.build, ['Props/C16.vo'])
-    join: Callable[[], bool] = lambda: False
+    join: Callable[..., bool] = lambda soft=False: False
     if built:
         lazy_side = side.get('engine_db', {}).get('lazy', {})
         multi_side = side.get('multi_db', {})
@@ -3354,30 +3443,35 @@ def run(ck: Ck) -> None:
         # informational: duplicates in the order lists (harmless, see c16_order_roundtrip)
         vo = side.get('engine_db', {}).get('vt_order', [])
         ck.extra['value_type_order_duplicates'] = sorted({x for x in vo if vo.count(x) > 1})
-        # The tie stages are coqc processes plus case generation: five worker processes (see start_workers / StageCk: private
+        # The tie stages are coqc processes plus case generation: six worker processes (see start_workers / StageCk: private
         # random streams, buffered records merged in the order of these lists, so nothing depends on timing).
         join = start_workers(ck, [
             [('theorems', theorems_all, ()),
              ('instance_obligations', lambda c: c.instance_obligations(IMPORTS, INSTANCE_OBLIGATIONS, name='c16'), ()),
              ('data_obligations', data_obligations, (data, tb)),
              ('line_data_obligations', line_data_obligations, ()),
-             ('corr_type_text', corr_type_text, ()),
-             ('corr_multi', corr_multi, (via, bool(multi_side.get('effective_first', True)))),
              ('corr_bits', corr_bits, ())],
             [('corr_writer_reader', corr_writer_reader, ())],
             [('corr_lines', corr_lines, ())],
             [('corr_binary_records', corr_binary_records, (data, tb)),
-             ('corr_head', corr_head, ())],
-            [('corr_strdict', corr_strdict, ()),
-             ('corr_lazy', corr_lazy, (data, tb, via)),
              ('corr_blocks', corr_blocks, ())],
+            [('corr_strdict', corr_strdict, ()),
+             ('corr_lazy', corr_lazy, (data, tb, via))],
+            [('corr_head', corr_head, ()),
+             ('corr_type_text', corr_type_text, ()),
+             ('corr_kind_keyword', corr_kind_keyword, ()),
+             ('corr_multi', corr_multi, (via, bool(multi_side.get('effective_first', True))))],
         ], searches=False)
     join_searches()
-    if (join() or ck.tie_broken) and not first_escalated:
+    hung = any(v['key'].startswith('search-stage-does-not-terminate') for v in ck.violations)
+    if (join(hung) or ck.tie_broken) and not first_escalated and not hung:
         # a tie was broken by the build or by a tie stage while the searches ran with the small budgets: search again, escalated
         ck.notes.append('a tie was broken by the build or by a stage that ran beside the searches: searches repeated with the thorough budgets')
         start_workers(ck, search_groups(data, tb), searches=True, escalate=True)()
     keys = {v['key'] for v in ck.violations}
+    if keys:
+        ck.explain('instance:property_hypotheses_hold')   # the conjunction of the named booleans: the parts say which mechanism
+        ck.explain('stage:')      # a tie stage the implementation made raise / hang is explained by any concrete finding of this run
     # Failed obligations are explained by a concrete violation of the same mechanism (with a replayable input).
     if any(k.startswith('longstring:empty-text') or k.startswith('bundled-db-export-unparseable:empty-display-name') for k in keys):
         ck.explain('instance:longstring_empty_text_written_as_quotes')
@@ -3410,12 +3504,15 @@ def run(ck: Ck) -> None:
         ck.explain('instance:text_line_cfg_ok_is_these')
         ck.explain('correspondence:text_lines_')
         ck.explain('correspondence:text_header_')
+        ck.explain('instance:text_kind_')
+        ck.explain('correspondence:text_kind_keyword')
     # a translator that failed closed at a site is explained by a concrete violation of the mechanism that site belongs to
     site_of = (('engine_dbase', 'lazy-multi-db'), ('engine_def', 'lazy-multi-db'), ('add_engine_database', 'lazy-multi-db'), ('EngineDB', 'lazy-'), ('_parse_block', 'lazy-'), ('get_fgd', 'lazy-'), ('serialise', 'binary-'), ('build_blocks', 'binary-'), ('BinStrDict', 'binary-'),
                ('_write_longstring', 'longstring:'), ('_fgd_escape', 'longstring:'), ('ESCAPE', 'longstring:'),
                ('KVDef.export', 'generated-fgd'), ('IODef.export', 'generated-fgd'), ('EntityDef.export', 'generated-fgd'),
                ('KVDef._parse', 'type-text-'), ('IODef._parse', 'type-text-'), ('VALUE_TYPE_LOOKUP', 'type-text-'), ('ValueTypes', 'type-text-'),
-               ('KVDef._parse', 'generated-fgd'), ('IODef._parse', 'generated-fgd'))
+               ('KVDef._parse', 'generated-fgd'), ('IODef._parse', 'generated-fgd'), ('FGD.parse_file', 'generated-fgd'),
+               ('FGD.parse_file', 'bundled-db'), ('EntityTypes', 'generated-fgd'))
     for tie in ck.tie_broken:
         if tie.startswith('translator '):
             if any(word in tie and any(k.startswith(pref) for k in keys) for word, pref in site_of):
